@@ -3,6 +3,16 @@ import ObiVerif.Model.Clean
 
 /-!
 # Arithmetic facts about the binary64 model (`ObiVerif.Model.F64`)
+
+* T0 `keeps_boundary_differs`, `keeps_boundary_agrees_tenth`, `share_big_differs` : concrete values (`decide`);
+* T1 `ofNat_exact`, `sumF_exact`, `mul_ofNat_exact` : conversions, sums and products below `2^53` are exact;
+* T2 `roundInt_rnd`, `share_exact` : one division then `math.Round` is `roundDiv` when `w * c < 2^52`;
+* T3 `rnd_lt`, `keeps_exact_d1` : for `dist = 1` the double comparison is the exact one when the cross products
+  are below `2^52`;
+* T4 `rnd_le_pow2`, `keeps_exact_half` : `ratio = 1/2`, `1 ≤ dist ≤ 61`, `w1 < 2^52`.
+
+Tools: `shiftOf_good` / `good_unique` (the shift chosen by `rnd` is the only one that puts the quotient in
+`[2^52, 2^53)`), `rnd_mul_right` / `rnd_congr` (`rnd` depends on the ratio only), `rneQuot_err` (half-unit error).
 -/
 set_option Elab.async false
 
@@ -515,4 +525,444 @@ theorem share_exact (w c : Nat) (fs : List Nat) (h1 : w * c < 2 ^ 52) (h2 : 0 < 
 example : share 1000 3 [3, 4] = ObiVerif.Clean.roundDiv (1000 * 3) [3, 4].sum :=
   share_exact _ _ _ (by decide) (by decide) (by decide) (by decide) (by decide)
 
+/-! ## T3 : one division on each side of `<=`, distance 1 -/
+
+theorem rneQuot_err (N D : Nat) (hD : 0 < D) :
+    2 * (rneQuot N D * D) ≤ 2 * N + D ∧ 2 * N ≤ 2 * (rneQuot N D * D) + D := by
+  have hdm := Nat.div_add_mod N D
+  have hr := Nat.mod_lt N hD
+  unfold rneQuot
+  generalize N / D = q at *
+  generalize N % D = r at *
+  have e : (q + 1) * D = D * q + D := by grind
+  have e' : q * D = D * q := Nat.mul_comm _ _
+  split
+  · rw [e']; omega
+  · split
+    · rw [e]; omega
+    · split
+      · rw [e']; omega
+      · rw [e]; omega
+
+theorem rneQuot_range (N D : Nat) (hD : 0 < D) (h1 : 2 ^ 52 * D ≤ N) (h2 : N < 2 ^ 53 * D) :
+    2 ^ 52 ≤ rneQuot N D ∧ rneQuot N D ≤ 2 ^ 53 := by
+  have a1 : 2 ^ 52 ≤ N / D := (Nat.le_div_iff_mul_le hD).2 h1
+  have a2 : N / D < 2 ^ 53 := (Nat.div_lt_iff_lt_mul hD).2 h2
+  rcases rneQuot_cases N D with h | ⟨h, _⟩ <;> rw [h] <;> omega
+
+/-- the shape of `rnd n d` for `0 < n / d < 2^52` -/
+theorem rnd_spec_pos (n d : Nat) (hn : 0 < n) (hd : 0 < d) (h : n < 2 ^ 52 * d) :
+    ∃ m s : Nat, 1 ≤ s ∧ 2 ^ 52 * d ≤ n * 2 ^ s ∧ n * 2 ^ s < 2 ^ 53 * d ∧ m = rneQuot (n * 2 ^ s) d ∧
+      rnd n d = norm m (-(s : Int)) := by
+  have hg := shiftOf_good n d hn hd
+  have hs : 1 ≤ shiftOf n d := by
+    by_cases hlt : shiftOf n d < 1
+    · exfalso
+      have e : (shiftOf n d).toNat = 0 := by omega
+      have h1 := hg.1
+      rw [e] at h1
+      have hp := pow_pos' (-shiftOf n d).toNat
+      have : d * 1 ≤ d * 2 ^ (-shiftOf n d).toNat := Nat.mul_le_mul_left _ hp
+      generalize d * 2 ^ (-shiftOf n d).toNat = D at *
+      omega
+    · omega
+  have hr := rnd_eq_of_good hg
+  obtain ⟨k, hk⟩ : ∃ k : Nat, shiftOf n d = (k : Int) := ⟨(shiftOf n d).toNat, by omega⟩
+  rw [hk] at hg hs hr
+  have e1 : ((k : Int)).toNat = k := by omega
+  have e2 : (-(k : Int)).toNat = 0 := by omega
+  obtain ⟨hlo, hhi⟩ := hg
+  rw [e1, e2] at hlo hhi hr
+  simp only [Nat.pow_zero, Nat.mul_one] at hlo hhi hr
+  exact ⟨_, k, by omega, hlo, hhi, rfl, hr⟩
+
+theorem le_neg (x y i j : Nat) : le ⟨x, -(i : Int)⟩ ⟨y, -(j : Int)⟩ = decide (x * 2 ^ j ≤ y * 2 ^ i) := by
+  unfold le
+  simp only
+  apply decide_eq_decide.2
+  rcases Nat.le_total i j with hij | hij
+  · have e0 : min (-(i : Int)) (-(j : Int)) = -(j : Int) := by omega
+    have e1 : (-(i : Int) - -(j : Int)).toNat = j - i := by omega
+    have e2 : (-(j : Int) - -(j : Int)).toNat = 0 := by omega
+    rw [e0, e1, e2]
+    have e3 : 2 ^ j = 2 ^ (j - i) * 2 ^ i := by rw [← Nat.pow_add]; congr 1; omega
+    rw [e3, ← Nat.mul_assoc, Nat.mul_le_mul_right_iff (pow_pos' i)]
+    simp
+  · have e0 : min (-(i : Int)) (-(j : Int)) = -(i : Int) := by omega
+    have e1 : (-(j : Int) - -(i : Int)).toNat = i - j := by omega
+    have e2 : (-(i : Int) - -(i : Int)).toNat = 0 := by omega
+    rw [e0, e1, e2]
+    have e3 : 2 ^ i = 2 ^ (i - j) * 2 ^ j := by rw [← Nat.pow_add]; congr 1; omega
+    rw [e3, ← Nat.mul_assoc, Nat.mul_le_mul_right_iff (pow_pos' j)]
+    simp
+
+theorem norm_form (m s : Nat) (hs : 1 ≤ s) : ∃ y j : Nat, norm m (-(s : Int)) = ⟨y, -(j : Int)⟩ := by
+  unfold norm
+  split
+  · exact ⟨2 ^ 52, s - 1, by congr 1; omega⟩
+  · exact ⟨m, s, rfl⟩
+
+theorem le_norm_left (m s y j : Nat) (hs : 1 ≤ s) :
+    le (norm m (-(s : Int))) ⟨y, -(j : Int)⟩ = le ⟨m, -(s : Int)⟩ ⟨y, -(j : Int)⟩ := by
+  unfold norm
+  split
+  · rename_i hm
+    obtain ⟨i, rfl⟩ : ∃ i, s = i + 1 := ⟨s - 1, by omega⟩
+    have e : (-((i + 1 : Nat) : Int) + 1) = -(i : Int) := by omega
+    rw [e, le_neg, le_neg, hm]
+    apply decide_eq_decide.2
+    have : y * 2 ^ (i + 1) = 2 * (y * 2 ^ i) := by grind
+    rw [this]
+    generalize y * 2 ^ i = A
+    generalize 2 ^ j = B
+    omega
+  · rfl
+
+theorem le_norm_right (m s x i : Nat) (hs : 1 ≤ s) :
+    le ⟨x, -(i : Int)⟩ (norm m (-(s : Int))) = le ⟨x, -(i : Int)⟩ ⟨m, -(s : Int)⟩ := by
+  unfold norm
+  split
+  · rename_i hm
+    obtain ⟨k, rfl⟩ : ∃ k, s = k + 1 := ⟨s - 1, by omega⟩
+    have e : (-((k + 1 : Nat) : Int) + 1) = -(k : Int) := by omega
+    rw [e, le_neg, le_neg, hm]
+    apply decide_eq_decide.2
+    have : x * 2 ^ (k + 1) = 2 * (x * 2 ^ k) := by grind
+    rw [this]
+    generalize x * 2 ^ k = A
+    generalize 2 ^ i = B
+    omega
+  · rfl
+
+theorem le_norm (m1 s1 m2 s2 : Nat) (h1 : 1 ≤ s1) (h2 : 1 ≤ s2) :
+    le (norm m1 (-(s1 : Int))) (norm m2 (-(s2 : Int))) = decide (m1 * 2 ^ s2 ≤ m2 * 2 ^ s1) := by
+  obtain ⟨y, j, hy⟩ := norm_form m2 s2 h2
+  rw [hy, le_norm_left _ _ _ _ h1, ← hy, le_norm_right _ _ _ _ h2, le_neg]
+
+theorem inRange_norm (m s : Nat) (h1 : 2 ^ 52 ≤ m) (h2 : m ≤ 2 ^ 53) (hs : s ≤ 1074) :
+    inRange (norm m (-(s : Int))) = true := by
+  unfold norm inRange
+  split
+  · simp only [decide_eq_true_eq]; omega
+  · simp only [decide_eq_true_eq]; omega
+
+/-- two ratios that differ, whose cross products are below `2^52`, round to different doubles in the same order -/
+theorem rnd_lt (n1 d1 n2 d2 : Nat) (hn1 : 0 < n1) (hd1 : 0 < d1) (hd2 : 0 < d2)
+    (h : n1 * d2 < n2 * d1) (hb : n2 * d1 < 2 ^ 52) :
+    le (rnd n1 d1) (rnd n2 d2) = true ∧ le (rnd n2 d2) (rnd n1 d1) = false := by
+  have hn2 : 0 < n2 := by
+    rcases Nat.eq_zero_or_pos n2 with h0 | h0
+    · subst h0; omega
+    · exact h0
+  have b1 : n1 < 2 ^ 52 * d1 := by
+    have : n1 * 1 ≤ n1 * d2 := Nat.mul_le_mul_left _ hd2
+    omega
+  have b2 : n2 < 2 ^ 52 * d2 := by
+    have : n2 * 1 ≤ n2 * d1 := Nat.mul_le_mul_left _ hd1
+    omega
+  obtain ⟨m1, s1, hs1, lo1, hi1, hm1, r1⟩ := rnd_spec_pos n1 d1 hn1 hd1 b1
+  obtain ⟨m2, s2, hs2, lo2, hi2, hm2, r2⟩ := rnd_spec_pos n2 d2 hn2 hd2 b2
+  rw [r1, r2, le_norm _ _ _ _ hs1 hs2, le_norm _ _ _ _ hs2 hs1]
+  have hT1 := pow_pos' s1
+  have hT2 := pow_pos' s2
+  generalize 2 ^ s1 = T1 at *
+  generalize 2 ^ s2 = T2 at *
+  obtain ⟨err1, _⟩ := rneQuot_err (n1 * T1) d1 hd1
+  obtain ⟨_, err2⟩ := rneQuot_err (n2 * T2) d2 hd2
+  rw [← hm1] at err1
+  rw [← hm2] at err2
+  clear hm1 hm2 r1 r2
+  have hG : 0 < d1 * d2 := Nat.mul_pos hd1 hd2
+  -- the gap `1 / (d1 * d2)` is larger than one unit in the last place of either value
+  have g1 : d1 * d2 < T1 := by
+    have a1 : 2 ^ 52 * d1 * d2 ≤ n1 * T1 * d2 := Nat.mul_le_mul_right _ lo1
+    have a2 : n1 * d2 * T1 < 2 ^ 52 * T1 := Nat.mul_lt_mul_of_pos_right (by omega) hT1
+    have a3 : n1 * T1 * d2 = n1 * d2 * T1 := by grind
+    have a4 : 2 ^ 52 * d1 * d2 = 2 ^ 52 * (d1 * d2) := by grind
+    exact Nat.lt_of_mul_lt_mul_left (a := 2 ^ 52) (by omega)
+  have g2 : d1 * d2 < T2 := by
+    have a1 : 2 ^ 52 * d2 * d1 ≤ n2 * T2 * d1 := Nat.mul_le_mul_right _ lo2
+    have a2 : n2 * d1 * T2 < 2 ^ 52 * T2 := Nat.mul_lt_mul_of_pos_right hb hT2
+    have a3 : n2 * T2 * d1 = n2 * d1 * T2 := by grind
+    have a4 : 2 ^ 52 * d2 * d1 = 2 ^ 52 * (d1 * d2) := by grind
+    exact Nat.lt_of_mul_lt_mul_left (a := 2 ^ 52) (by omega)
+  have f1 : 2 * (m1 * T2 * (d1 * d2)) ≤ 2 * (n1 * d2 * (T1 * T2)) + d1 * d2 * T2 := by
+    have := Nat.mul_le_mul_right (d2 * T2) err1
+    grind
+  have f2 : 2 * (n2 * d1 * (T1 * T2)) ≤ 2 * (m2 * T1 * (d1 * d2)) + d1 * d2 * T1 := by
+    have := Nat.mul_le_mul_right (d1 * T1) err2
+    grind
+  have f3 : (n1 * d2 + 1) * (T1 * T2) ≤ n2 * d1 * (T1 * T2) := Nat.mul_le_mul_right _ h
+  have f3' : (n1 * d2 + 1) * (T1 * T2) = n1 * d2 * (T1 * T2) + T1 * T2 := by grind
+  have f4 : d1 * d2 * T2 < T1 * T2 := Nat.mul_lt_mul_of_pos_right g1 hT2
+  have f5 : d1 * d2 * T1 < T1 * T2 := by
+    have := Nat.mul_lt_mul_of_pos_left g2 hT1
+    grind
+  have key : m1 * T2 * (d1 * d2) < m2 * T1 * (d1 * d2) := by
+    generalize m1 * T2 * (d1 * d2) = V at *
+    generalize m2 * T1 * (d1 * d2) = U at *
+    generalize n1 * d2 * (T1 * T2) = P at *
+    generalize n2 * d1 * (T1 * T2) = W at *
+    generalize d1 * d2 * T2 = GB at *
+    generalize d1 * d2 * T1 = GA at *
+    generalize T1 * T2 = TT at *
+    omega
+  have key' : m1 * T2 < m2 * T1 := Nat.lt_of_mul_lt_mul_right key
+  constructor
+  · exact decide_eq_true (by omega)
+  · exact decide_eq_false (by omega)
+
+theorem le_zero_left (b : F) : le zero b = true := by
+  unfold le zero
+  simp
+
+theorem pow_one_of_ne (x : F) (h : eqv x one = false) : pow x 1 = some x := by
+  unfold pow
+  simp [h]
+
+theorem one_eq : one = ⟨2 ^ 52, -((52 : Nat) : Int)⟩ := by decide
+
+theorem zero_eq : zero = ⟨0, -((0 : Nat) : Int)⟩ := by decide
+
+theorem le_refl' (a : F) : le a a = true := by
+  unfold le
+  simp
+
+/-- a ratio `0 < p / q < 1` with `q < 2^53` is a normal double below 1 -/
+theorem ratio_spec (p q : Nat) (hp : 0 < p) (hpq : p < q) (hq' : q < 2 ^ 53) :
+    eqv (rnd p q) one = false ∧ inRange (rnd p q) = true := by
+  have hq : 0 < q := by omega
+  obtain ⟨m, s, hs, lo, hi, hm, r⟩ := rnd_spec_pos p q hp hq (by
+    have : 2 ^ 52 * 1 ≤ 2 ^ 52 * q := Nat.mul_le_mul_left _ hq
+    omega)
+  have hmr := rneQuot_range _ _ hq lo hi
+  obtain ⟨err, _⟩ := rneQuot_err (p * 2 ^ s) q hq
+  rw [← hm] at hmr err
+  have hT := pow_pos' s
+  have hstep : (p + 1) * 2 ^ s ≤ q * 2 ^ s := Nat.mul_le_mul_right _ hpq
+  have hstep' : (p + 1) * 2 ^ s = p * 2 ^ s + 2 ^ s := by grind
+  have hbig : 2 ^ 52 < 2 ^ s := by
+    have : 2 ^ 52 * q < 2 ^ s * q := by
+      have : q * 2 ^ s = 2 ^ s * q := Nat.mul_comm _ _
+      omega
+    exact Nat.lt_of_mul_lt_mul_right this
+  have hs52 : 52 < s := (Nat.pow_lt_pow_iff_right (by omega)).1 hbig
+  have hbig' : 2 ^ 53 ≤ 2 ^ s := Nat.pow_le_pow_right (by omega) (by omega)
+  have hs106 : s < 106 := by
+    have a1 : 1 * 2 ^ s ≤ p * 2 ^ s := Nat.mul_le_mul_right _ hp
+    have a2 : 2 ^ 53 * q < 2 ^ 53 * 2 ^ 53 := Nat.mul_lt_mul_of_pos_left hq' (by omega)
+    have a3 : 2 ^ s < 2 ^ 106 := by
+      have : (2 : Nat) ^ 53 * 2 ^ 53 = 2 ^ 106 := by decide
+      omega
+    exact (Nat.pow_lt_pow_iff_right (by omega)).1 a3
+  have hlt : m < 2 ^ s := by
+    have : m * q < 2 ^ s * q := by
+      have : q * 2 ^ s = 2 ^ s * q := Nat.mul_comm _ _
+      generalize m * q = A at *
+      generalize p * 2 ^ s = B at *
+      generalize 2 ^ s * q = C at *
+      generalize 2 ^ s = T at *
+      omega
+    exact Nat.lt_of_mul_lt_mul_right this
+  constructor
+  · unfold eqv
+    have : le one (rnd p q) = false := by
+      rw [r, one_eq, le_norm_right _ _ _ _ hs, le_neg]
+      apply decide_eq_false
+      have : m * 2 ^ 52 < 2 ^ 52 * 2 ^ s := by
+        have := Nat.mul_lt_mul_of_pos_left hlt (show 0 < 2 ^ 52 by omega)
+        rw [Nat.mul_comm m]; exact this
+      omega
+    rw [this]
+    simp
+  · rw [r]
+    exact inRange_norm _ _ hmr.1 hmr.2 (by omega)
+
+/-- T3 : for `dist = 1` the double comparison of graph.go is the exact comparison of the two ratios, as long as
+the cross products `w1 * q` and `p * wf` are below `2^52` -/
+theorem keeps_exact_d1 (p q w1 wf : Nat) (hq : 0 < q) (hwf : 0 < wf) (hpq : p < q)
+    (ha : w1 * q < 2 ^ 52) (hb : p * wf < 2 ^ 52) (hq' : q < 2 ^ 53) (hwf' : wf < 2 ^ 53) :
+    keeps p q w1 wf 1 = some (ObiVerif.Clean.ratioKeeps p q w1 wf 1) := by
+  have hw1 : w1 < 2 ^ 52 := by
+    have : w1 * 1 ≤ w1 * q := Nat.mul_le_mul_left _ hq
+    omega
+  have hp : p < 2 ^ 52 := by
+    have : p * 1 ≤ p * wf := Nat.mul_le_mul_left _ hwf
+    omega
+  have hrk : ObiVerif.Clean.ratioKeeps p q w1 wf 1 = decide (w1 * q ≤ p * wf) := by
+    simp [ObiVerif.Clean.ratioKeeps]
+  unfold keeps
+  rw [hrk, div_ofNat p q (by omega) hq hq', div_ofNat w1 wf (by omega) hwf hwf']
+  rcases Nat.eq_zero_or_pos p with hp0 | hp0
+  · -- `ratio = 0`
+    subst hp0
+    have e0 : rnd 0 q = zero := by simp [rnd]
+    have e1 : pow zero 1 = some zero := by decide
+    rw [e0, e1]
+    simp only
+    have e2 : inRange zero = true := by decide
+    rw [if_pos e2]
+    rcases Nat.eq_zero_or_pos w1 with hw0 | hw0
+    · subst hw0
+      have : rnd 0 wf = zero := by simp [rnd]
+      rw [this]
+      simp [le_zero_left]
+    · obtain ⟨m, s, hs, lo, hi, hm, r⟩ := rnd_spec_pos w1 wf hw0 hwf (by
+        have : 2 ^ 52 * 1 ≤ 2 ^ 52 * wf := Nat.mul_le_mul_left _ hwf
+        omega)
+      have hmr := rneQuot_range _ _ hwf lo hi
+      rw [← hm] at hmr
+      have hpos : 0 < w1 * q := Nat.mul_pos hw0 hq
+      rw [r, zero_eq, le_norm_left _ _ _ _ hs, le_neg]
+      congr 1
+      apply decide_eq_decide.2
+      simp only [Nat.pow_zero, Nat.mul_one, Nat.zero_mul]
+      omega
+  · obtain ⟨hne, hin⟩ := ratio_spec p q hp0 hpq hq'
+    rw [pow_one_of_ne _ hne]
+    simp only
+    rw [if_pos hin]
+    congr 1
+    rcases Nat.eq_zero_or_pos w1 with hw0 | hw0
+    · subst hw0
+      have : rnd 0 wf = zero := by simp [rnd]
+      rw [this, le_zero_left]
+      exact (decide_eq_true (by omega)).symm
+    · rcases Nat.lt_trichotomy (w1 * q) (p * wf) with hlt | heq | hgt
+      · rw [(rnd_lt w1 wf p q hw0 hwf hq hlt hb).1]
+        exact (decide_eq_true (by omega)).symm
+      · rw [rnd_congr hwf hq heq, le_refl']
+        exact (decide_eq_true (by omega)).symm
+      · rw [(rnd_lt p q w1 wf hp0 hq hwf hgt ha).2]
+        exact (decide_eq_false (by omega)).symm
+
+example : keeps 7 10 49 100 1 = some (ObiVerif.Clean.ratioKeeps 7 10 49 100 1) :=
+  keeps_exact_d1 _ _ _ _ (by decide) (by decide) (by decide) (by decide) (by decide) (by decide) (by decide)
+
+/-! ## T4 : `ratio = 1/2`, any distance up to 61 -/
+
+/-- `math.Pow(0.5, d)` is exactly `2^-d` (the loop of `pow` is run by the kernel for each `d`) -/
+theorem pow_half_all : ∀ d, d < 61 → pow (rnd 1 2) (d + 1) = some ⟨2 ^ 52, -53 - (d : Int)⟩ := by decide
+
+theorem rneQuot_le (N D k : Nat) (hD : 0 < D) (h : N ≤ k * D) : rneQuot N D ≤ k := by
+  obtain ⟨err, _⟩ := rneQuot_err N D hD
+  have : rneQuot N D * D < (k + 1) * D := by
+    have e : (k + 1) * D = k * D + D := by grind
+    generalize rneQuot N D * D = A at *
+    generalize k * D = B at *
+    omega
+  have := Nat.lt_of_mul_lt_mul_right this
+  omega
+
+/-- comparing a rounded quotient with a power of two is exact when the denominator is below `2^53` -/
+theorem rnd_le_pow2 (n dd d : Nat) (hn : n < 2 ^ 52) (hd0 : 0 < dd) (hd : dd < 2 ^ 53) :
+    le (rnd n dd) ⟨2 ^ 52, -((52 + d : Nat) : Int)⟩ = decide (n * 2 ^ d ≤ dd) := by
+  rcases Nat.eq_zero_or_pos n with h0 | h0
+  · subst h0
+    have : rnd 0 dd = zero := by simp [rnd]
+    rw [this, le_zero_left]
+    exact (decide_eq_true (by omega)).symm
+  · obtain ⟨m, s, hs, lo, hi, hm, r⟩ := rnd_spec_pos n dd h0 hd0 (by
+      have : 2 ^ 52 * 1 ≤ 2 ^ 52 * dd := Nat.mul_le_mul_left _ hd0
+      omega)
+    have hmr := rneQuot_range _ _ hd0 lo hi
+    obtain ⟨_, err⟩ := rneQuot_err (n * 2 ^ s) dd hd0
+    rw [← hm] at hmr err
+    rw [r, le_norm_left _ _ _ _ hs, le_neg]
+    apply decide_eq_decide.2
+    have hP := pow_pos' d
+    have e52 : 2 ^ (52 + d) = 2 ^ 52 * 2 ^ d := Nat.pow_add _ _ _
+    rw [e52]
+    constructor
+    · -- the double is `≤ 2^-d` : so is the ratio (contrapositive)
+      intro hle
+      apply Classical.byContradiction
+      intro hgt
+      have hgt' : dd + 1 ≤ n * 2 ^ d := by omega
+      -- `s ≤ 52 + d`
+      have a1 : dd * 2 ^ s < dd * (2 ^ 53 * 2 ^ d) := by
+        have b1 : (dd + 1) * 2 ^ s ≤ n * 2 ^ d * 2 ^ s := Nat.mul_le_mul_right _ hgt'
+        have b2 : n * 2 ^ s * 2 ^ d < 2 ^ 53 * dd * 2 ^ d := Nat.mul_lt_mul_of_pos_right hi hP
+        have b3 : n * 2 ^ d * 2 ^ s = n * 2 ^ s * 2 ^ d := by grind
+        have b4 : 2 ^ 53 * dd * 2 ^ d = dd * (2 ^ 53 * 2 ^ d) := by grind
+        have b5 : (dd + 1) * 2 ^ s = dd * 2 ^ s + 2 ^ s := by grind
+        omega
+      have a2 : 2 ^ s < 2 ^ (53 + d) := by
+        rw [Nat.pow_add]; exact Nat.lt_of_mul_lt_mul_left a1
+      have a3 : s < 53 + d := (Nat.pow_lt_pow_iff_right (by omega)).1 a2
+      by_cases hc : s ≤ 51 + d
+      · have c1 : 2 ^ s ≤ 2 ^ (51 + d) := Nat.pow_le_pow_right (by omega) hc
+        have c2 : 2 ^ (51 + d) = 2 ^ 51 * 2 ^ d := Nat.pow_add _ _ _
+        have c3 : 2 ^ 52 * 2 ^ d ≤ m * 2 ^ d := Nat.mul_le_mul_right _ hmr.1
+        have c5 : 2 ^ 52 * 2 ^ s < 2 ^ 52 * (2 ^ 52 * 2 ^ d) := by
+          apply Nat.mul_lt_mul_of_pos_left _ (by omega)
+          generalize 2 ^ d = P at *
+          omega
+        have c6 : m * (2 ^ 52 * 2 ^ d) = 2 ^ 52 * (m * 2 ^ d) := by grind
+        have c7 : 2 ^ 52 * (2 ^ 52 * 2 ^ d) ≤ 2 ^ 52 * (m * 2 ^ d) := Nat.mul_le_mul_left _ c3
+        omega
+      · have hs' : s = 52 + d := by omega
+        subst hs'
+        rw [e52] at hle err
+        -- `m ≤ 2^52`
+        have c1 : m * (2 ^ 52 * 2 ^ d) = 2 ^ 52 * 2 ^ d * m := by grind
+        have c2 : 2 ^ 52 * (2 ^ 52 * 2 ^ d) = 2 ^ 52 * 2 ^ d * 2 ^ 52 := by grind
+        rw [c1, c2] at hle
+        have c3 : m ≤ 2 ^ 52 := Nat.le_of_mul_le_mul_left hle (Nat.mul_pos (by omega) hP)
+        have c4 : m = 2 ^ 52 := by have := hmr.1; omega
+        rw [c4] at err
+        have c5 : (dd + 1) * 2 ^ 52 ≤ n * 2 ^ d * 2 ^ 52 := Nat.mul_le_mul_right _ hgt'
+        have c6 : n * (2 ^ 52 * 2 ^ d) = n * 2 ^ d * 2 ^ 52 := by grind
+        rw [c6] at err
+        clear c1 c2 c6 a1 a2 lo hi e52 r
+        omega
+    · -- the ratio is `≤ 2^-d` : so is the double
+      intro hle
+      have a1 : 2 ^ 52 * 2 ^ d * dd ≤ 2 ^ s * dd := by
+        have b1 : 2 ^ 52 * dd * 2 ^ d ≤ n * 2 ^ s * 2 ^ d := Nat.mul_le_mul_right _ lo
+        have b2 : n * 2 ^ d * 2 ^ s ≤ dd * 2 ^ s := Nat.mul_le_mul_right _ hle
+        have b3 : n * 2 ^ s * 2 ^ d = n * 2 ^ d * 2 ^ s := by grind
+        have b4 : 2 ^ 52 * dd * 2 ^ d = 2 ^ 52 * 2 ^ d * dd := by grind
+        have b5 : dd * 2 ^ s = 2 ^ s * dd := Nat.mul_comm _ _
+        omega
+      have a2 : 2 ^ (52 + d) ≤ 2 ^ s := by rw [e52]; exact Nat.le_of_mul_le_mul_right a1 hd0
+      have a3 : 52 + d ≤ s := (Nat.pow_le_pow_iff_right (by omega)).1 a2
+      have a4 : 2 ^ s = 2 ^ (s - d) * 2 ^ d := by rw [← Nat.pow_add]; congr 1; omega
+      have a5 : n * 2 ^ s ≤ 2 ^ (s - d) * dd := by
+        have : n * 2 ^ d * 2 ^ (s - d) ≤ dd * 2 ^ (s - d) := Nat.mul_le_mul_right _ hle
+        rw [a4]
+        grind
+      have a6 : m ≤ 2 ^ (s - d) := by rw [hm]; exact rneQuot_le _ _ _ hd0 a5
+      have a7 : m * 2 ^ d ≤ 2 ^ (s - d) * 2 ^ d := Nat.mul_le_mul_right _ a6
+      rw [← a4] at a7
+      have a8 : m * (2 ^ 52 * 2 ^ d) = 2 ^ 52 * (m * 2 ^ d) := by grind
+      rw [a8]
+      exact Nat.mul_le_mul_left _ a7
+
+/-- T4 (with `w1 < 2^52` instead of `2^53`, and `d ≤ 61`) -/
+theorem keeps_exact_half (w1 wf d : Nat) (hd : 1 ≤ d) (hd' : d ≤ 61) (h1 : w1 < 2 ^ 52) (h2 : 0 < wf)
+    (h3 : wf < 2 ^ 53) : keeps 1 2 w1 wf d = some (ObiVerif.Clean.ratioKeeps 1 2 w1 wf d) := by
+  obtain ⟨j, rfl⟩ : ∃ j, d = j + 1 := ⟨d - 1, by omega⟩
+  have hrk : ObiVerif.Clean.ratioKeeps 1 2 w1 wf ((j + 1 : Nat) : Int) = decide (w1 * 2 ^ (j + 1) ≤ wf) := by
+    simp [ObiVerif.Clean.ratioKeeps]
+  unfold keeps
+  rw [hrk, div_ofNat 1 2 (by decide) (by decide) (by decide), div_ofNat w1 wf (by omega) h2 h3,
+    pow_half_all j (by omega)]
+  simp only
+  have hin : inRange ⟨2 ^ 52, -53 - (j : Int)⟩ = true := by
+    unfold inRange
+    simp only [decide_eq_true_eq]
+    omega
+  rw [if_pos hin]
+  have e : (-53 - (j : Int)) = -((52 + (j + 1) : Nat) : Int) := by omega
+  rw [e, rnd_le_pow2 w1 wf (j + 1) h1 h2 h3]
+
+example : keeps 1 2 3 25 3 = some (ObiVerif.Clean.ratioKeeps 1 2 3 25 3) :=
+  keeps_exact_half _ _ _ (by decide) (by decide) (by decide) (by decide) (by decide)
+
 end ObiVerif.F64
+
+#print axioms ObiVerif.F64.share_exact
+#print axioms ObiVerif.F64.keeps_exact_d1
+#print axioms ObiVerif.F64.keeps_exact_half
+#print axioms ObiVerif.F64.share_big_differs
